@@ -321,11 +321,86 @@ def vertMap (i : Option Nat) : Map.FMap :=
 example : selectTable cjk [fromBytesLossy (asc "hani")] [fromBytesLossy (asc "KOR ")] = .ok (some selKOR) := by decide +kernel
 example : selectTable cjk [fromBytesLossy (asc "hani")] [fromBytesLossy (asc "ENG ")] = .ok (some selDflt) := by decide +kernel
 
-/-- A FEATURE LISTED BY THE SELECTED LANGUAGE SYSTEM IS THE ONE APPLIED. Whatever features the shaper registered
+/-! ### `find_language_feature` on language systems as fonts really carry them
+
+The feature-index array of a LangSys is data of the font: nothing makes its entries point into the FeatureList. Subset
+and hand-edited fonts carry DANGLING indices (≥ FeatureCount), duplicates, indices of records with other tags. The
+search visits the listed indices in order and takes the first one whose record EXISTS and carries the tag; an index
+without a record is passed over like a record with another tag (`findFeatureLoop`; HarfBuzz reads `HB_TAG_NONE` there). -/
+
+/-- a language system of the sloppy kind: FeatureList `ccmp, locl, liga`; the language system lists
+    `7, 65535, 2, 2, 3, 1` — two indices past the FeatureList in front, a duplicate, one more dangling index in the middle -/
+def sloppy : Table :=
+  ⟨[⟨TAG_latn, some ⟨TAG_dflt, none, [7, 65535, 2, 2, 3, 1]⟩, []⟩],
+   [fromBytesLossy (asc "ccmp"), fromBytesLossy (asc "locl"), fromBytesLossy (asc "liga")]⟩
+
+/-- A DANGLING INDEX IS SKIPPED. An entry of the language system's feature-index array that points past the
+    FeatureList does not end the search: whatever the tag, the result is that of the entries behind it. -/
+theorem C18_dangling_index_skipped (tb : Table) (si : Nat) (li : Option Nat) (sys : LangSys) (ft : Tag)
+    (hsys : langSysOf tb si li = some sys) (pre post : List Nat) (hl : sys.features = pre ++ post)
+    (hd : ∀ j ∈ pre, tb.features[j]? = none) :
+    findLanguageFeature tb si li ft = findFeatureLoop tb.features ft post := by
+  unfold findLanguageFeature
+  rw [hsys]
+  simp only [hl]
+  apply findFeatureLoop_skip
+  intro j hj
+  rw [hd j hj]
+  intro e; cases e
+
+example : (langSysOf sloppy 0 none).map (·.features) = some ([7, 65535] ++ [2, 2, 3, 1]) ∧
+    (∀ j ∈ [7, 65535], sloppy.features[j]? = none) ∧
+    findLanguageFeature sloppy 0 none (fromBytesLossy (asc "locl")) = some 1 := by decide +kernel
+
+/-- A LISTED INDEX THAT EXISTS IN THE FEATURELIST WITH THE WANTED TAG IS FOUND, WHATEVER STANDS BEFORE IT: dangling
+    indices, duplicates, indices of records with other tags (`hpre` only says that none of them is itself an existing
+    record with the tag — then that one would be the first listed and win). -/
+theorem C18_listed_feature_found (tb : Table) (si : Nat) (li : Option Nat) (sys : LangSys) (ft : Tag)
+    (hsys : langSysOf tb si li = some sys) (pre post : List Nat) (i : Nat) (hl : sys.features = pre ++ i :: post)
+    (hi : tb.features[i]? = some ft) (hpre : ∀ j ∈ pre, tb.features[j]? ≠ some ft) :
+    findLanguageFeature tb si li ft = some i := by
+  unfold findLanguageFeature
+  rw [hsys]
+  simp only [hl]
+  exact findFeatureLoop_found pre post i hi hpre
+
+/-- non-vacuity, with two dangling indices in front of the found one, and one behind another -/
+example : (langSysOf sloppy 0 none).map (·.features) = some ([7, 65535] ++ 2 :: [2, 3, 1]) ∧
+    sloppy.features[2]? = some (fromBytesLossy (asc "liga")) ∧
+    (∀ j ∈ [7, 65535], sloppy.features[j]? ≠ some (fromBytesLossy (asc "liga"))) ∧
+    sloppy.features[7]? = none ∧
+    findLanguageFeature sloppy 0 none (fromBytesLossy (asc "liga")) = some 2 ∧
+    findLanguageFeature sloppy 0 none (fromBytesLossy (asc "locl")) = some 1 ∧
+    findLanguageFeature sloppy 0 none (fromBytesLossy (asc "ccmp")) = none := by decide +kernel
+
+/-- … without any side condition: as soon as SOME listed index has a record with the tag, the search succeeds, with a
+    listed index whose record exists and carries the tag (the first such). -/
+theorem C18_listed_feature_some (tb : Table) (si : Nat) (li : Option Nat) (sys : LangSys) (ft : Tag)
+    (hsys : langSysOf tb si li = some sys) (i : Nat) (hm : i ∈ sys.features) (hi : tb.features[i]? = some ft) :
+    ∃ j, findLanguageFeature tb si li ft = some j ∧ tb.features[j]? = some ft ∧
+      ∃ pre post, sys.features = pre ++ j :: post ∧ ∀ k ∈ pre, tb.features[k]? ≠ some ft := by
+  unfold findLanguageFeature
+  rw [hsys]
+  simp only
+  cases h : findFeatureLoop tb.features ft sys.features with
+  | none => exact absurd hi (findFeatureLoop_none.1 h i hm)
+  | some j => exact ⟨j, rfl, findFeatureLoop_some h⟩
+
+example : (3 : Nat) ∈ [9, 3, 3] ∧ ([5, 5, 5, 8] : List Tag)[3]? = some 8 := by decide
+
+/-- EXACTLY THE EXISTING LISTED FEATURES: the search fails only when no listed index has a record with the tag. -/
+theorem C18_unlisted_feature_not_found (tb : Table) (si : Nat) (li : Option Nat) (sys : LangSys) (ft : Tag)
+    (hsys : langSysOf tb si li = some sys) :
+    findLanguageFeature tb si li ft = none ↔ ∀ i ∈ sys.features, tb.features[i]? ≠ some ft := by
+  unfold findLanguageFeature
+  rw [hsys]
+  exact findFeatureLoop_none
+
+/-- THE LISTED RECORDS ARE THE MAP'S INDICES. Whatever features the shaper registered
     (`infos`, any flags, `F_GLOBAL_SEARCH` included): if the language system selected in GSUB or in GPOS lists a record
     under the tag of a compiled feature map, the map's indices are exactly the records the two selected language
     systems list (first listed first) — no other record of the FeatureList takes part, however many carry the tag. -/
-theorem C18_listed_feature_applied (c : Map.Cfg) (tables : List (Option Table)) (sels : List (Option Selection))
+theorem C18_listed_indices_applied (c : Map.Cfg) (tables : List (Option Table)) (sels : List (Option Selection))
     (isSimple : Bool) (infos : List Map.Info) (f : Map.FMap) (hf : f ∈ compileFeatures c tables sels isSimple infos)
     (hl : (langFeatureAt tables sels 0 f.tag).isSome ∨ (langFeatureAt tables sels 1 f.tag).isSome) :
     f.index0 = langFeatureAt tables sels 0 f.tag ∧ f.index1 = langFeatureAt tables sels 1 f.tag := by
@@ -340,6 +415,49 @@ theorem C18_listed_feature_applied (c : Map.Cfg) (tables : List (Option Table)) 
 
 example : compileFeatures Map.genCfg [some cjk, none] [some selKOR, none] false [vertInfo] = [vertMap (some 2)] ∧
     (langFeatureAt [some cjk, none] [some selKOR, none] 0 TAG_vert).isSome = true := by decide +kernel
+
+/-- A FEATURE LISTED BY THE SELECTED LANGUAGE SYSTEM IS THE ONE APPLIED — stated on the font's records, for feature-index
+    arrays that may hold dangling indices. Table `t` (0 = GSUB, 1 = GPOS) has the selection `s`, whose language system
+    `sys` lists `pre ++ i :: post`; record `i` exists and carries the tag of the compiled feature map `f`, and nothing
+    in `pre` is an existing record with that tag (dangling indices, duplicates, other tags: anything else). Then `f`
+    points to record `i` in table `t`, whatever features the shaper registered, whatever flags they carry — and the
+    other table's index is what ITS selected language system lists. -/
+theorem C18_listed_feature_applied (c : Map.Cfg) (tables : List (Option Table)) (sels : List (Option Selection))
+    (isSimple : Bool) (infos : List Map.Info) (f : Map.FMap) (hf : f ∈ compileFeatures c tables sels isSimple infos)
+    (t : Nat) (ht : t ≤ 1) (tb : Table) (s : Selection) (sys : LangSys)
+    (htb : tables[t]?.join = some tb) (hs : sels[t]?.join = some s)
+    (hsys : langSysOf tb s.scriptIndex s.langIndex = some sys)
+    (pre post : List Nat) (i : Nat) (hl : sys.features = pre ++ i :: post)
+    (hi : tb.features[i]? = some f.tag) (hpre : ∀ j ∈ pre, tb.features[j]? ≠ some f.tag) :
+    (if t = 0 then f.index0 else f.index1) = some i ∧
+      f.index0 = langFeatureAt tables sels 0 f.tag ∧ f.index1 = langFeatureAt tables sels 1 f.tag := by
+  have hfound : langFeatureAt tables sels t f.tag = some i := by
+    unfold langFeatureAt
+    rw [htb, hs]
+    exact C18_listed_feature_found tb s.scriptIndex s.langIndex sys f.tag hsys pre post i hl hi hpre
+  have ht' : t = 0 ∨ t = 1 := by omega
+  have hsome : (langFeatureAt tables sels 0 f.tag).isSome ∨ (langFeatureAt tables sels 1 f.tag).isSome := by
+    rcases ht' with rfl | rfl
+    · left; rw [hfound]; rfl
+    · right; rw [hfound]; rfl
+  obtain ⟨h0, h1⟩ := C18_listed_indices_applied c tables sels isSimple infos f hf hsome
+  refine ⟨?_, h0, h1⟩
+  rcases ht' with rfl | rfl
+  · simp only [if_true]; rw [h0, hfound]
+  · simp only [Nat.succ_ne_zero, if_false]; rw [h1, hfound]
+
+/-- a `locl` feature as every shaper registers it (`enable_feature(locl, F_GLOBAL, 1)`) -/
+def loclInfo : Map.Info := ⟨fromBytesLossy (asc "locl"), 0, 1, Map.genCfg.fGlobal, 1, 0, 0⟩
+/-- script `latn` found, default language system -/
+def selLatn : Selection := ⟨true, 0, TAG_latn, none, none⟩
+
+/-- non-vacuity: the sloppy language system — `locl` is record 1, listed last, behind three dangling indices (7, 65535,
+    3) and a duplicated `liga`; the compiled map has it -/
+example : (compileFeatures Map.genCfg [some sloppy, none] [some selLatn, none] false [loclInfo]).map
+      (fun f => (f.tag, f.index0, f.index1)) = [(fromBytesLossy (asc "locl"), some 1, none)] ∧
+    (langSysOf sloppy selLatn.scriptIndex selLatn.langIndex).map (·.features) = some ([7, 65535, 2, 2, 3] ++ 1 :: []) ∧
+    sloppy.features[1]? = some (fromBytesLossy (asc "locl")) ∧ sloppy.features[7]? = none ∧ sloppy.features[3]? = none ∧
+    (∀ j ∈ [7, 65535, 2, 2, 3], sloppy.features[j]? ≠ some (fromBytesLossy (asc "locl"))) := by decide +kernel
 
 /-- ONLY THE GLOBAL SEARCH REACHES AN UNLISTED RECORD. If a compiled feature map points to a record that the selected
     language system of that table does not list under its tag, then no selected language system (GSUB or GPOS) lists the
@@ -384,7 +502,7 @@ theorem C18_applied_record_listed (c : Map.Cfg) (tables : List (Option Table)) (
     (t : Nat) (i : Nat) (hi : (if t = 0 then f.index0 else f.index1) = some i) (ht : t ≤ 1) :
     ∃ tb s sys, tables[t]?.join = some tb ∧ sels[t]?.join = some s ∧
       langSysOf tb s.scriptIndex s.langIndex = some sys ∧ i ∈ sys.features ∧ tb.features[i]? = some f.tag := by
-  obtain ⟨h0, h1⟩ := C18_listed_feature_applied c tables sels isSimple infos f hf hl
+  obtain ⟨h0, h1⟩ := C18_listed_indices_applied c tables sels isSimple infos f hf hl
   have : t = 0 ∨ t = 1 := by omega
   rcases this with rfl | rfl
   · simp only [if_true] at hi
